@@ -35,9 +35,8 @@ OBLIGATIONS = [
     "SkVerif.C09.ensemble_eq_aggregate_of_members",
     "SkVerif.C09.pipeline_fit_eq_spec",
     "SkVerif.C09.pipeline_predict_eq_spec",
-    "SkVerif.C09.pipeline_inner_sees_only_transformed_partial",
-    "SkVerif.C09.pipeline_repaired_inner_sees_only_transformed",
-    "SkVerif.C09.pipeline_as_coded_violates_invariant",
+    "SkVerif.C09.pipeline_inner_sees_only_transformed",
+    "SkVerif.C09.original_update_violated_invariant",
     "SkVerif.C09.multiplexer_selects_by_name",
     "SkVerif.C09.multiplexer_bisim_selected",
     "SkVerif.C09.multiplexer_passes_explicit_history_verbatim",
@@ -70,11 +69,11 @@ LEVEL_NOTE = ("Trusted: Lean kernel, axioms propext/Classical.choice/Quot.sound,
 TECHNIQUE = "Lean 4 proof (induction over member lists and call histories, simulation) + differential correspondence with recording inner estimators"
 
 AGGS = ["mean", "median", "min", "max", "online"]
-# "P" = the model of TransformedTargetForecaster.update as coded in /repo (raw batch handed on: known finding);
-# "Pf" = the model of the repaired update (findings/C09-pipeline-update-transformed.patch).  Switch the default
-# when the repair lands in /repo.  C09_MODEL_FIXED=1 is only for trying the patch in a scratch worktree.
+# "Pf" = the model of TransformedTargetForecaster as coded in /repo (update transforms the batch step by step,
+# /repo commit 8cf3d7f); "P" = the model of the ORIGINAL update (raw batch handed on).  C09_MODEL_ORIGINAL=1 is
+# only for looking at the original behaviour in a scratch worktree.
 import os as _os
-_PIPE_TOKEN = "Pf" if _os.environ.get("C09_MODEL_FIXED") == "1" else "P"
+_PIPE_TOKEN = "P" if _os.environ.get("C09_MODEL_ORIGINAL") == "1" else "Pf"
 
 
 def is_exhaustive(tier):
